@@ -23,6 +23,11 @@ theorem governance_surface : governanceSurface.map sig = governanceExpected := b
 
 theorem governance_storage_no_alias : noAlias governanceStorage = true ∧ keysNodup governanceStorage = true := by decide
 
+/-- the storage mappers of the contract are exactly the fields the model's state has (a mapper the model does not know
+    is state the theorems do not cover; the harness emulates its absence on contracts deployed by earlier code: `wipe`) -/
+theorem governance_storage_keys : governanceStorage.map (·.key) = ["gateway", "governance_address", "governance_chain", "minimum_time_lock_delay", "operator", "operator_approvals", "refund_token", "time_lock_eta"] := by decide
+
+
 end Axelar.Surface
 
 namespace Axelar.Surface
